@@ -117,6 +117,12 @@ def run(ctx):
                 SAME_TEXTS += [("%s in '%s'" % (k, lit), "%s == '%s'" % (k, lit)), ("%s not in '3.11 %s'" % (k, lit), "%s != '3.11' and %s != '%s'" % (k, k, lit)),
                          ("%s in '%s 3.11'" % (k, lit), "%s == '%s' or %s == '3.11'" % (k, lit, k)), ("%s in '%s' or %s != '%s'" % (k, lit, k, lit), "os_name == 'x' or os_name != 'x'")]
         # (two texts with the same PEP 508 reading: they must denote the same function, hence be the same marker)
+        # python_version only takes X.Y values: comparisons against X.Y.Z read like the neighbouring X.Y comparisons
+        SAME_TEXTS += [("python_version <= '3.7.8'", "python_version < '3.8'"), ("python_version <= '3.7.8'", "python_version <= '3.7'"), ("python_version < '3.7.8'", "python_version <= '3.7'"),
+                       ("python_version > '3.7.8'", "python_version >= '3.8'"), ("python_version >= '3.7.8'", "python_version > '3.7'"), ("'3.7.8' >= python_version", "python_version < '3.8'"),
+                       ("python_version <= '3.7.8' and python_version >= '3.8'", "os_name == 'x' and os_name != 'x'"), ("python_version > '3.7.8' or python_version < '3.8'", "os_name == 'x' or os_name != 'x'"),
+                       ("python_version ~= '3.7.0'", "python_version == '3.7'"), ("python_full_version ~= '3.8.0'", "python_full_version == '3.8.*'"),
+                       ("python_full_version ~= '3.6.2.1'", "python_full_version >= '3.6.2.1' and python_full_version < '3.6.3'")]
         for ta, tb in SAME_TEXTS:
             x, y = sess.parse(ta)[0], sess.parse(tb)[0]
             if x is None or y is None:
